@@ -123,8 +123,9 @@ def run(prop, tier, seed, replay):
         "wall_s": round(time.time() - t0, 2),
         "violations": len(lines),
     }
-    os.makedirs(os.path.join(core.VERIF, "evidence"), exist_ok=True)
-    with open(os.path.join(core.VERIF, "evidence", f"{prop}.json"), "w") as f:
+    evdir = os.environ.get("VERIF_EVIDENCE_DIR") or os.path.join(core.VERIF, "evidence")      # the regression of the mutation corpus writes its evidence elsewhere
+    os.makedirs(evdir, exist_ok=True)
+    with open(os.path.join(evdir, f"{prop}.json"), "w") as f:
         json.dump(ev, f, indent=1, sort_keys=True)
     print(f"{prop} tier={tier} seed={seed}: theorems={len(theorems)} evaluations={ctx.evaluations} "
           f"distinct={len(ctx.distinct)} violations={len(lines)} wall={ev['wall_s']}s", flush=True)
